@@ -119,7 +119,7 @@ func (c CircleNodeData) Process() (modeling.Mesh, error) {
 	}
 
 	if c.Sides != nil {
-		circle.Sides = c.Sides.Value()
+		circle.Sides = max(3, c.Sides.Value())
 	}
 
 	if c.Radius != nil {
